@@ -16,8 +16,8 @@
 
 using namespace sim;
 
-enum Code { S_WRITE = 1, S_SUSPEND, S_RESUME, S_READMODE, S_BUFQ, S_WAIT, S_INWRITE, S_INREAD, P_READ, P_STALL, P_SEND, P_CAP, P_CLOSE, CODE_N };
-static const char* codeName[] = {"?", "write", "suspend", "resume", "readmode", "bufq", "wait", "write_in_onWrite", "write_in_onRead", "peer.read", "peer.stall", "peer.send", "peer.cap", "peer.close"};
+enum Code { S_WRITE = 1, S_SUSPEND, S_RESUME, S_READMODE, S_BUFQ, S_WAIT, S_INWRITE, S_INREAD, P_READ, P_STALL, P_SEND, P_CAP, P_CLOSE, S_INSUSPEND, S_INRESUME, CODE_N };
+static const char* codeName[] = {"?", "write", "suspend", "resume", "readmode", "bufq", "wait", "write_in_onWrite", "write_in_onRead", "peer.read", "peer.stall", "peer.send", "peer.cap", "peer.close", "suspend_in_onRead", "resume_in_onRead"};
 static const char* opName(int c) { return (c > 0 && c < CODE_N) ? codeName[c] : "?"; }
 
 static inline unsigned char codeByte(int stream, uint64_t off) { uint64_t x = off * 0x9e3779b97f4a7c15ULL + (uint64_t)stream * 0xbf58476d1ce4e5b9ULL; x ^= x >> 29; x *= 0x94d049bb133111ebULL; x ^= x >> 32; return (unsigned char)x; }
@@ -26,7 +26,7 @@ struct ClientCb;
 struct Cl {
   Server::Client* client; ClientCb* cb; Socket* far; int fd, farFd;
   uint64_t accepted, inflight, peerGot, peerSent, clientRead; int64_t backlog; int expectOnWrite; int onWriteCount;
-  bool suspended, closed, peerClosedByScript, failedIO; int readMode; int pendInWrite, pendInRead; int peerTask; bool peerDone;
+  bool suspended, closed, peerClosedByScript, failedIO; int readMode; int pendInWrite, pendInRead, pendSuspend, pendResume; int peerTask; bool peerDone;
   int onReadWhileSuspended;
 };
 struct Ctx {
@@ -79,6 +79,9 @@ struct ClientCb : public Server::Client::ICallback {
     byte buf[256]; usize got = 0; usize want = k.readMode == 1 ? 16 : sizeof buf;
     if (k.client->read(buf, want, got)) { for (usize i = 0; i < got; ++i) if (buf[i] != codeByte(100 + c, k.clientRead + i)) fail("C13/client_read_wrong_byte", "client %d read a wrong byte at offset %llu", c, (unsigned long long)(k.clientRead + i)); k.clientRead += got; }
     if (k.pendInRead) { int n = k.pendInRead; k.pendInRead = 0; probe("write_inside_onRead"); doWrite(c, n, "onRead"); }
+    /* flow control from inside a read callback (the proxy back-pressure pattern): suspend or resume a client, possibly one whose own read event was fetched in the same poll round */
+    if (k.pendSuspend) { int t = k.pendSuspend - 1; k.pendSuspend = 0; Cl& o = C.cl[t]; if (!o.closed && o.client) { probe(t == c ? "suspend_self_inside_onRead" : "suspend_other_inside_onRead"); o.client->suspend(); o.suspended = true; logEvent("suspend_in_onRead", c, t); } }
+    if (k.pendResume) { int t = k.pendResume - 1; k.pendResume = 0; Cl& o = C.cl[t]; if (!o.closed && o.client) { o.suspended = false; o.client->resume(); logEvent("resume_in_onRead", c, t); } }
   }
   void onWrite() override {
     Cl& k = C.cl[c];
@@ -109,7 +112,7 @@ struct DriverCb : public Server::Timer::ICallback {
     if (C.finished) return;
     const RunSpec& s = *C.spec;
     if (C.waitTicks > 0) { C.waitTicks--; return; }
-    while (C.pos < s.plan.size() && (s.plan[C.pos].task != 0 || s.plan[C.pos].code >= P_READ)) C.pos++;
+    while (C.pos < s.plan.size() && (s.plan[C.pos].task != 0 || (s.plan[C.pos].code >= P_READ && s.plan[C.pos].code <= P_CLOSE))) C.pos++;
     if (C.pos < s.plan.size()) {
       const Op& op = s.plan[C.pos++]; int c = (int)(op.a[0] % C.nc); Cl& k = C.cl[c];
       logEvent("script", op.code, c, op.a[1]);
@@ -122,6 +125,8 @@ struct DriverCb : public Server::Timer::ICallback {
       case S_WAIT: C.waitTicks = (int)(op.a[1] % 20); break;
       case S_INWRITE: k.pendInWrite = (int)(1 + op.a[1] % 1500); break;
       case S_INREAD: k.pendInRead = (int)(1 + op.a[1] % 1500); break;
+      case S_INSUSPEND: k.pendSuspend = 1 + (int)(op.a[1] % C.nc); break;
+      case S_INRESUME: k.pendResume = 1 + (int)(op.a[1] % C.nc); break;
       }
       return;
     }
@@ -195,7 +200,9 @@ static void finalize() {
 static void generate(RunSpec& s, int tier) {
   uint64_t z = s.seed;
   auto r = [&](uint64_t n) { z += 0x9e3779b97f4a7c15ULL; uint64_t x = z; x = (x ^ (x >> 30)) * 0xbf58476d1ce4e5b9ULL; x = (x ^ (x >> 27)) * 0x94d049bb133111ebULL; x ^= x >> 31; return n ? x % n : x; };
-  int nc = 1 + (int)r(3); s.knobs["clients"] = nc;
+  int nc = 1 + (int)r(3);
+  bool readFocus = r(4) == 0; if (readFocus && nc < 2) nc = 2 + (int)r(2);     /* a quarter of the plans stress the read side: peers mostly send, the script mostly suspends/resumes (also from inside onRead) */
+  s.knobs["clients"] = nc; s.knobs["read_focus"] = readFocus;
   bool faulty = r(4) != 0; s.knobs["faulty"] = faulty;
   static const int caps[] = {1, 5, 32, 200, 1024, 2048, 65536}; s.knobs["cap"] = faulty ? caps[r(7)] : 1 << 20;
   static const int pct[] = {0, 5, 20, 50}; s.knobs["send_fault_pct"] = faulty ? pct[r(4)] : 0; s.knobs["recv_fault_pct"] = faulty ? pct[r(4)] : 0; s.knobs["epoll_fault_pct"] = faulty ? pct[r(4)] : 0; s.knobs["eintr_pct"] = faulty && r(3) == 0 ? 5 : 0;
@@ -204,17 +211,19 @@ static void generate(RunSpec& s, int tier) {
   for (int i = 0; i < ns; ++i) {
     Op o; o.task = 0; o.a[0] = (int64_t)r(nc); o.a[1] = (int64_t)r(100000); o.a[2] = o.a[3] = 0;
     uint64_t k = r(100);
-    o.code = k < 50 ? S_WRITE : k < 58 ? S_SUSPEND : k < 66 ? S_RESUME : k < 70 ? S_READMODE : k < 76 ? S_BUFQ : k < 84 ? S_WAIT : k < 93 ? S_INWRITE : S_INREAD;
+    o.code = k < 50 ? S_WRITE : k < 58 ? S_SUSPEND : k < 66 ? S_RESUME : k < 70 ? S_READMODE : k < 76 ? S_BUFQ : k < 84 ? S_WAIT : k < 91 ? S_INWRITE : k < 95 ? S_INREAD : k < 98 ? S_INSUSPEND : S_INRESUME;
+    if (readFocus && r(10) < 6) { uint64_t q = r(10); o.code = q < 4 ? S_INSUSPEND : q < 6 ? S_INRESUME : q < 8 ? S_RESUME : q < 9 ? S_SUSPEND : S_WAIT; }
     if (o.code == S_WRITE && r(3) == 0) o.a[1] = r(40);
     s.plan.push_back(o);
   }
   for (int c = 0; c < nc; ++c) {
-    int np = (int)r(14);
+    int np = (int)r(14); if (readFocus) np += 4;
     for (int i = 0; i < np; ++i) {
       Op o; o.task = 1 + c; o.a[0] = c; o.a[1] = (int64_t)r(100000); o.a[2] = o.a[3] = 0;
       uint64_t k = r(100);
       o.code = k < 45 ? P_READ : k < 65 ? P_STALL : k < 82 ? P_SEND : k < 96 ? P_CAP : P_CLOSE;
       if (o.code == P_CLOSE && r(3)) o.code = P_READ;
+      if (readFocus && r(10) < 6) { o.code = P_SEND; }
       s.plan.push_back(o);
     }
   }
